@@ -30,7 +30,7 @@ class Model:
         self.index = "name"
 
     def n(self):
-        return len(self.cols["name"])
+        return len(self.cols[self.order[0]])
 
     def icol(self):
         return self.cols[self.index]
@@ -81,7 +81,8 @@ def universe(tier):
     ops += [("col", "pattern"), ("col", "const"), ("attr", "pattern"), ("attr", "const"), ("rot",),
             ("vcell", 0), ("newcol",), ("delcol", "w"), ("popcol", "k"),
             ("append", "a"), ("append", "c"), ("index", "k"), ("index", "name"),
-            ("cellk", 0, "a")]
+            ("cellk", 0, "a"),
+            ("delidx", "del"), ("delidx", "pop"), ("readd", "item"), ("readd", "attr")]
     ops += [("probe", p) for p in PROBES]
     return ops
 
@@ -109,8 +110,15 @@ class System(simple.SimpleSystem):
         m = live["m"]
         n = m.n()
         out = []
+        missing = m.index not in m.cols
         for i, op in enumerate(self.universe):
             k = op[0]
+            if missing and k not in ("readd", "vcell", "newcol", "delcol"):
+                continue      # the index column was deleted: only re-adding it (or touching other columns) makes sense
+            if k == "readd" and not missing:
+                continue
+            if k == "delidx" and (n == 0 or len(m.cols) < 2):
+                continue
             if k == "cell" and op[1] >= n:
                 continue
             if k in ("vcell", "cellk") and (op[1] >= n or (k == "cellk" and "k" not in m.cols)):
@@ -192,6 +200,22 @@ class System(simple.SimpleSystem):
         elif k == "index":
             t._index = op[1]
             m.index = op[1]
+        elif k == "delidx":
+            if op[1] == "del":
+                del t[m.index]
+            else:
+                t.pop(m.index)
+            del m.cols[m.index]
+            m.order.remove(m.index)
+        elif k == "readd":
+            n = len(m.cols[m.order[0]])
+            val = np.array((PATTERN + PATTERN)[1:n + 1], dtype=object)
+            if op[1] == "item":
+                t[m.index] = val
+            else:
+                setattr(t, m.index, val)
+            m.cols[m.index] = list((PATTERN + PATTERN)[1:n + 1])
+            m.order.append(m.index)
         elif k == "probe":
             name, count, off = parse_row(op[1])
             pos = resolve(m.icol(), name, count, off)
@@ -234,6 +258,11 @@ class System(simple.SimpleSystem):
             return f"t._append_row({{every string column: {op[1]!r}, every float column: 100.0 + len(t)}})"
         if k == "index":
             return f"t._index = {op[1]!r}"
+        if k == "delidx":
+            return "del t[t._index]" if op[1] == "del" else "t.pop(t._index)"
+        if k == "readd":
+            v = f"np.array({list((PATTERN + PATTERN)[1:])!r}[:len(t)], dtype=object)"
+            return f"t[t._index] = {v}" if op[1] == "item" else f"setattr(t, t._index, {v})"
         if k == "probe":
             return f"t['v', {op[1]!r}]   # lookup (builds the cache)"
         return repr(op)
@@ -268,6 +297,8 @@ class System(simple.SimpleSystem):
     def state(self, mk_child, hist, op):
         live = mk_child()
         t, m = live["t"], live["m"]
+        if m.index not in m.cols:
+            return []     # index column currently deleted: nothing to resolve against
         col = m.icol()
         n = m.n()
         v = m.cols["v"]
